@@ -70,10 +70,13 @@ Definition g_sub_balance (c : gcore) (a v : Z) : gcore :=
   if v =? 0 then c1
   else g_set c1 a (mkGobj (g_nonce o) (g_bal o - v) (g_code o) (g_stor o) (g_orig o) (g_sui o)).
 
-(* StateDB.CreateAccount -> createObject: new object, balance of a live predecessor carried over *)
+(* StateDB.CreateAccount -> createObject: new object, balance of a live predecessor carried over (setBalance: not
+   journalled).  Over a live predecessor the journal entry is resetObjectChange, whose dirtied() is nil: the
+   address does NOT become dirty (evm.create dirties it right after with SetNonce); over nothing it is
+   createObjectChange, which names the address. *)
 Definition g_create_account (c : gcore) (a : Z) : gcore :=
   match g_objs c a with
-  | Some p => g_set c a (mkGobj 0 (g_bal p) 0 zf zf false)
+  | Some p => mkGcore (upd (g_objs c) a (Some (mkGobj 0 (g_bal p) 0 zf zf false))) (g_dirty c) (g_side c)
   | None => g_set c a gobj0
   end.
 
